@@ -11,7 +11,8 @@ DESCRIPTION = {
              "table; each returned Deferred/Future completes at most once, exactly once after its matching reply, with the reply's content (result shape rules) or an "
              "ApplicationError with the reply's URI/args/kwargs; no other pending result changes state; progressive results reach only that call's on_progress; duplicate / "
              "unknown / wrong-type replies raise ProtocolError and complete nothing.  Exhaustive cross-type job: each of the 6 request kinds pending alone x each of the 5 other reply types x {success form, ERROR form} x 3 "
-             "serializers - the wrong-type reply bearing the pending id is a protocol violation and the genuine reply still completes the request.  IdGenerator is checked directly around 2^53.  Non-trivial = >=2 outstanding requests of "
+             "serializers - the wrong-type reply bearing the pending id is a protocol violation and the genuine reply still completes the request.  Enumerated synchronous-router job: the reply (success or ERROR) is delivered while transport.send() of the request is still running, for all "
+             "six kinds: the request completes exactly once, a second copy is rejected.  IdGenerator is checked directly around 2^53.  Non-trivial = >=2 outstanding requests of "
              "different kinds answered in non-issue order; distinct by digest of the operation sequence."),
     "assumptions": ["progressive results for calls that did not ask for them are a router fault and not generated"],
 }
@@ -27,6 +28,7 @@ def plan(tier, seed):
             jobs.append({"func": "machine", "fw": fw, "name": "machine/%s/%d" % (fw, sh), "args": {"seed": seed * 1000 + i * 100 + sh, "n": n}})
     for fw in ("twisted", "asyncio"):
         jobs.append({"func": "crosstype", "fw": fw, "name": "crosstype/" + fw, "args": {}})
+        jobs.append({"func": "syncreply", "fw": fw, "name": "syncreply/" + fw, "args": {}})
     jobs.append({"func": "idgen", "name": "idgen", "args": {"seed": seed * 1000 + 900, "n": 500 if tier == "quick" else 5000}})
     return jobs
 
@@ -595,6 +597,79 @@ def crosstype(col):
     col.exhaustive.append("C04 crosstype: 6 pending kinds x 5 other reply types x 2 forms x 3 serializers")
 
 
+def syncreply(col):
+    """enumerated: the router's reply arrives *while transport.send() of the request is still running* (an in-process / loopback router answers
+    synchronously).  Each of the six request kinds, success and ERROR replies, three serializers: the request completes exactly once with that reply,
+    nothing is rejected as unmatched, and a second copy of the reply afterwards is a protocol violation."""
+    from harness.wampsess import SessionWorld
+    from autobahn.wamp.exception import ProtocolError, ApplicationError
+    from autobahn.wamp.types import PublishOptions
+    REQ = {"Call": 48, "Publish": 16, "Subscribe": 32, "Unsubscribe": 34, "Register": 64, "Unregister": 66}
+    for ser in ("json", "cbor", "msgpack"):
+        for kind in ("call", "publish", "subscribe", "unsubscribe", "register", "unregister"):
+            for as_error in (False, True):
+                w = SessionWorld(serializer=ser)
+                case = {"check": "syncreply", "ser": ser, "kind": kind, "error": as_error}
+                try:
+                    w.join()
+                    s, M = w.session, w.message
+                    sub = reg = None
+                    if kind == "unsubscribe":
+                        t0 = w.track(w.call(lambda: s.subscribe(lambda *a, **k: None, "com.x.t")))
+                        w.feed(M.Subscribed(w.t.sent[-1].request, 801))
+                        sub = t0.value
+                    if kind == "unregister":
+                        t0 = w.track(w.call(lambda: s.register(lambda *a, **k: None, "com.x.p")))
+                        w.feed(M.Registered(w.t.sent[-1].request, 901))
+                        reg = t0.value
+                    inside = {"err": None, "reply": None, "n": 0}
+
+                    def router(msg):
+                        name = type(msg).__name__
+                        if name not in REQ:
+                            return
+                        inside["n"] += 1
+                        if as_error:
+                            reply = M.Error(REQ[name], msg.request, "wamp.error.not_authorized", args=["no"])
+                        else:
+                            reply = {"Call": lambda: M.Result(msg.request, args=[42]), "Publish": lambda: M.Published(msg.request, 7001), "Subscribe": lambda: M.Subscribed(msg.request, 802),
+                                     "Unsubscribe": lambda: M.Unsubscribed(msg.request), "Register": lambda: M.Registered(msg.request, 902), "Unregister": lambda: M.Unregistered(msg.request)}[name]()
+                        inside["reply"] = reply
+                        try:
+                            s.onMessage(reply)
+                        except Exception as e:
+                            inside["err"] = e
+                    w.t.on_send = router
+                    api = {"call": lambda: s.call("com.x.p", 1), "publish": lambda: s.publish("com.x.t", 1, options=PublishOptions(acknowledge=True)),
+                           "subscribe": lambda: s.subscribe(lambda *a, **k: None, "com.x.t2"), "register": lambda: s.register(lambda *a, **k: None, "com.x.p2"),
+                           "unsubscribe": lambda: sub.unsubscribe(), "unregister": lambda: reg.unregister()}[kind]
+                    try:
+                        fut = w.call(api)
+                    except Exception as e:
+                        raise Violation("C04|syncreply|api-raised|%s|%s" % (kind, exc_key(e)), repr(e), case)
+                    w.t.on_send = None
+                    tr = w.track(fut)
+                    if inside["n"] != 1:
+                        raise Violation("C04|syncreply|request-count", "%d request messages" % inside["n"], case)
+                    if inside["err"] is not None:
+                        raise Violation("C04|syncreply|reply-during-send-rejected|%s|%s" % (kind, exc_key(inside["err"])), "the reply to the %s request was delivered while send() was running and raised %r" % (kind, inside["err"]), case)
+                    if tr.n != 1:
+                        raise Violation("C04|syncreply|request-not-completed-by-its-reply|" + kind, "completion count %d" % tr.n, case)
+                    if as_error and (tr.ok or not isinstance(tr.value, ApplicationError) or tr.value.error != "wamp.error.not_authorized"):
+                        raise Violation("C04|syncreply|error-content-differs|" + kind, repr(tr.value), case)
+                    if not as_error and not tr.ok:
+                        raise Violation("C04|syncreply|success-reply-failed-the-request|" + kind, repr(tr.value), case)
+                    again = w.feed(inside["reply"])
+                    if not isinstance(again, ProtocolError):
+                        raise Violation("C04|syncreply|duplicate-reply-not-rejected|" + kind, "second copy of the reply: %r" % (again,), case)
+                    if tr.n != 1:
+                        raise Violation("C04|request-completed-twice", kind, case)
+                finally:
+                    w.close()
+                col.case(True, enum=True, cls=["syncreply/%s/%s" % (kind, "error" if as_error else "success")], sample=case)
+    col.exhaustive.append("C04 syncreply: 6 request kinds x {success, ERROR} x 3 serializers with the reply delivered inside transport.send()")
+
+
 def idgen(col, seed, n):
     from hypothesis import strategies as st
     from autobahn.util import IdGenerator
@@ -640,6 +715,9 @@ def replay(col, case):
     case = dec(case)
     c = case.get("case", case)
     if c.get("check") in ("idgen", "idgen-session"):
+        return
+    if c.get("check") == "syncreply":
+        syncreply(col)
         return
     i = Interp(col, c["config"]["serializer"])
     try:
